@@ -383,7 +383,7 @@ def check_bn_api(case):
 
 def groups(tier):
     quick = tier == "quick"
-    fan = 4 if quick else 8
+    fan = 4 if quick else 6
     dags = "all DAGs <= 3 nodes" if quick else "all DAGs <= 4 nodes"
     variants = ("3 random cardinality vectors from {1,2,3} per DAG" if quick else
                 "every cardinality vector from {1,2,3}^n for n <= 3, one random vector per 4-node DAG")
